@@ -35,7 +35,7 @@ BASE = dict(
     p_try_raise=0.2,
 )
 Y = [gen.profile(kinds=k, **dict(BASE, w_stmt=dict(sync=0, orphan=0.0, raise_=0.1, try_=1.4))) for k in (2, 3, 4)]
-S = [gen.profile(kinds=k, **dict(BASE, w_stmt=dict(sync=2.5, orphan=0.3, raise_=0.1, try_=1.2, syncitem=1.2))) for k in (2, 3)]
+S = [gen.profile(kinds=k, **dict(BASE, w_stmt=dict(sync=2.5, orphan=0.3, raise_=0.1, try_=1.2, syncitem=1.2, cancelbatch=0.5))) for k in (2, 3)]
 # profile F: flush bodies that re-enter the scheduler (scheduler-driven flushes only: no direct item.value() flushes,
 # whose combination with a re-entering flush body is outside the stated quantifier - see DESIGN.md section 9)
 F = [gen.profile(kinds=k, **dict(BASE, p_nestedsync=0.12, w_stmt=dict(sync=1.5, orphan=0.2, raise_=0.1, try_=1.2, syncitem=0))) for k in (2, 3)]
@@ -96,6 +96,7 @@ def run_unit(unit, progress):
             maxfl = max(maxfl, nfl)
             inc("flushes", nfl)
             inc("flush_bodies_that_called_asynq_synchronously", rt.nested_flush_calls)
+            inc("batches_cancelled_by_user_code_while_scheduled", rt.cancelled_batches)
             inc("spawned_items_joined_fresh_batch", sum(1 for ev in rt.log if ev[0] == "spawned" and ev[1] != ev[2]))
             for ev in rt.log:
                 if ev[0] == "spawned" and ev[1] == ev[2]:
@@ -196,6 +197,7 @@ def reach(c, tier):
         "n_item_checks",
         "spawned_items_joined_fresh_batch",
         "flush_bodies_that_called_asynq_synchronously",
+        "batches_cancelled_by_user_code_while_scheduled",
         "flush_call_made_to_raise_preflush",
         "flush_call_made_to_raise_override",
         "flush_call_made_to_raise_switch",
